@@ -259,13 +259,13 @@ def h_history(X, spec):
 
 def obligations(tier):
     q = tier == "quick"
-    hl = ["a", "b", "c", "1", ""] if q else ["a", "b", "c", "1", "", "ab", "B"]
+    hl = ["a", "b", "c", "1", ""] if q else ["a", "b", "c", "1", "", "B"]
     dl = ["a", "b", "c", "1", "", "B"] if q else ["a", "b", "c", "1", "", "B", "ab"]
-    hmax, dmax = (4, 2) if q else (4, 3)
-    spec_q = dict(max_responses=2, set_hosts=[H_SUB, H_INNER], set_ports=[80, 8080], dom_attrs=DOM_ATTRS, expiry=EXPIRY[:3], first_plain=True,
-                  names=["c"], req_hosts=REQ_HOSTS, req_ports=[80, 8080], req_paths=["/", "/foo", "/foobar"])
-    spec_t = dict(spec_q, set_hosts=[H_SAME, H_SUB, H_INNER], expiry=EXPIRY, names=["c", "d"], req_paths=["/", "/foo", "/foobar", "/foo/bar"])
-    spec_store = dict(spec_t, do_request=False, names=["c"], expiry=EXPIRY[:3] if q else EXPIRY)
+    hmax, dmax = (3, 2) if q else (4, 2)
+    spec_q = dict(max_responses=2, set_hosts=[H_SUB, H_INNER], set_ports=[80, 8080], dom_attrs=DOM_ATTRS, expiry=EXPIRY[:2], first_plain=True,
+                  names=["c"], req_hosts=REQ_HOSTS, req_ports=[80, 8080], req_paths=["/foo", "/foobar"])
+    spec_t = dict(spec_q, set_hosts=[H_SAME, H_SUB, H_INNER], expiry=EXPIRY, req_paths=["/", "/foo", "/foobar", "/foo/bar"])
+    spec_store = dict(spec_t, do_request=False, names=["c"] if q else ["c", "d"], expiry=EXPIRY[:3] if q else EXPIRY)
     spec_t3 = dict(max_responses=3, set_hosts=[H_SUB, H_INNER], set_ports=[80], dom_attrs=[None, ".example.com"], expiry=EXPIRY[:2], first_plain=False,
                    names=["c"], req_hosts=REQ_HOSTS, req_ports=[80, 8080], req_paths=["/", "/foo", "/foobar"])
     reach_h = ["response", "request", "attached", "attached-allowed", "foreign-rejected", "expiry-processed"]
@@ -281,14 +281,14 @@ def obligations(tier):
              must_reach=["decided", "stored", "both-match"]),
         Symx("history", lambda X: h_history(X, spec_q if q else spec_t),
              bounds="<= 2 Set-Cookie responses (hosts " + ("" if q else "example.com / ") + "www.example.com / www.example.com.evil.org, port 80 / 8080, Domain none / example.com / "
-                    ".example.com / .evil.org, Path none / /foo, expiry none / Max-Age=0 / past Expires" + ("" if q else " / Max-Age=3600, names c / d") + ") then one request to "
+                    ".example.com / .evil.org, Path none / /foo, expiry none / Max-Age=0 / past Expires" + ("" if q else " / Max-Age=3600") + ") then one request to "
                     "{same, sub, sibling, evil-example.com, www.example.com.evil.org} x port {80, 8080} x path {/, /foo, /foobar" + ("" if q else ", /foo/bar") + "}",
              encoded=ENCODED, must_reach=reach_h, parallel_depth=2),
     ]
     obs.append(Symx("store-and-expire", lambda X: h_history(X, spec_store),
                     bounds="<= 2 Set-Cookie responses, no request; after each response every cookie in the real jar must be allowed by the reference jar "
                            "(hosts example.com / www.example.com / www.example.com.evil.org, second response port 80 / 8080, Domain none / example.com / .example.com / .evil.org, "
-                           "Path none / /foo, expiry none / Max-Age=0 / past Expires" + ("" if q else " / Max-Age=3600") + ")",
+                           "Path none / /foo, expiry none / Max-Age=0 / past Expires" + ("" if q else " / Max-Age=3600, cookie names c / d") + ")",
                     encoded=ENCODED, must_reach=["response", "foreign-rejected", "expiry-processed"], parallel_depth=2))
     if not q:
         obs.append(Symx("history-3", lambda X: h_history(X, spec_t3),
